@@ -5,7 +5,7 @@ cd /repo && git status --short | grep -q . && { echo "/repo not clean"; exit 2; 
 git -C /repo apply "$patch" || { echo "patch does not apply"; exit 2; }
 for id in "$@"; do
   echo "=== $id"
-  (cd /verif && timeout 3000 ./check "$id" --tier quick 2>&1 | grep "^VIOLATION\|^KNOWN\|^$id\|MACHINERY" | cut -c1-400 | head -12)
+  (cd /verif && timeout 3000 ./check "$id" --tier quick 2>&1 | grep "^VIOLATION\|^KNOWN\|^$id\|MACHINERY" | cut -c1-400 | sort -r | head -14)
 done
 git -C /repo checkout -- .
 git -C /repo status --short | head -3
